@@ -6,6 +6,8 @@ import Proofs.ProbingBuildBlank
 import Proofs.ProbingBuildRepG
 import Proofs.ProbingBuildBlank2
 import Proofs.ProbingBuildChainStep
+import Proofs.ProbingBuildChainSem
+import Proofs.ArpaOKCheck
 import Properties.C03
 /-! C03/C01 — the probing *builder* inside the model (`Model/ProbingBuild.lean` = lm/search_hashed.cc ReadNGrams,
 FindLower, AdjustLower, MarkLower, activate, unigram sign fix, missing-`<unk>` fix-up).
@@ -13,10 +15,12 @@ FindLower, AdjustLower, MarkLower, activate, unigram sign fix, missing-`<unk>` f
 Status: the executable model is tied entry by entry to the real `ProbingModel`/`RestProbingModel` structure (stream
 `probing-structure`, every n-gram and every blank of every generated ARPA) and its result is checked at run time
 against `Table.build a` (`prep` flag of the driver) — on every generated model, blanks included.  Proved here: the
-table-operation layer with its error classes (general); the complete fold and `Represents` for every file whose blanks are
-single-level (`probing_build_represents_single`, `probing_end_to_end_single`); for blank chains of any length the
-operational half of the per-line step (`probing_chain_line_partial`).  Not proved: `ProbingBuildRepresents` for files
-with blank chains of length ≥ 2 (remaining: the key-level evaluation of `chainWant`, see design_notes/C03.md round 8). -/
+table-operation layer with its error classes (general), and **`probing_build_represents` / `probing_end_to_end`
+for every proper loadable ARPA**: blank chains of any length over a basis of any order (hypotheses: `ArpaOK'` incl.
+`unkBasis`, section order, distinct n-grams, hash injectivity per order, capacity).  `demoPruned_represents` /
+`demoPruned_end_to_end` instantiate them on a model with a two-level chain.  Excluded (known finding
+`blank-based-on-hallucinated-unk`): blanks based on a hallucinated `<unk>`.  `MaxRestBuild` (`rest = true`) is modelled
+and tied to the real structure by the differential check only. -/
 namespace KV.C03ProbingBuild
 open KV.Arpa KV.Table KV.Score KV.State KV.ProbingLM KV.ProbingBuild
 
@@ -198,14 +202,61 @@ theorem probing_end_to_end_single (combine : Nat → Word → Nat) (a : Arpa) (n
   obtain ⟨s, Mmid, Mlong, hb, rep⟩ := probing_build_represents_single combine a nWords buckets um ok hcls hsorted hdist hinj hcaps
   exact ⟨s, hb, KV.C03.probing_prob a ok.wf (fun _ => false) combine _ Mmid Mlong rep inj h st sf w hw⟩
 
-/-- the full statement (NOT proved for models with blank chains of length ≥ 2): the built structure represents `Table.build a` -/
+/-- **`probing_build_represents`** — every loadable proper ARPA, blank chains of any length and any basis.  Hypotheses:
+`ArpaOK'` (well-formed; probabilities ≤ 0 including the backed-off products, `proper`; vocabulary = unigram lines; words
+of n-grams are unigrams; the `<unk>` fix-up convention; `unkBasis`: no blank is based on a hallucinated `<unk>`, the
+class of the known finding `blank-based-on-hallucinated-unk`), the file's order of n-gram sections, distinct n-grams,
+injectivity of the 64-bit hash on the keys of one order, and bucket counts above the final entry counts (real + blanks)
+— the conditions under which the real loader returns without an exception.  Conclusion: `build` returns `.ok s` and
+`s` **represents** `Table.build a`: every key (real n-gram or hallucinated blank) is found with the probability,
+back-off, sign bit (`independent_left`) and extension bit `Table.build a` prescribes, and nothing else is found.
+The per-line step is `stepAll`: closed lines by `invG_step_closed`, lines with `L ≥ 1` missing suffixes by `step_chain`
+(loop lemmas `findLower_chain`, `fillBlanks_chain`, `markChain_chain`, `adjustLower_chain`; key-level `CH.chain_sem`). -/
+theorem probing_build_represents (combine : Nat → Word → Nat) (a : Arpa) (nWords : Nat) (buckets : List Nat) (um : Rat)
+    (ok : ArpaOK' a nWords um)
+    (hsorted : (ngramLines a).Pairwise (fun p q => p.1.length ≤ q.1.length))
+    (hdist : (a.entries.map (·.1)).Nodup)
+    (hinj : ∀ k k', IsKey a k → IsKey a k' → k.length = k'.length → hashOf combine k = hashOf combine k' → k = k')
+    (hcaps : ∀ m, (keysOf (foldKeys [] (ngramLines a)) m).length < capOf buckets m) :
+    ∃ s Mmid Mlong, build combine false a nWords buckets um = .ok s ∧
+      Represents combine (toPLM false a.order s) (Table.build a) Mmid Mlong :=
+  build_represents_of_step combine a nWords buckets um ok (fun _ => True)
+    (stepAll combine a nWords um ok (capOf buckets)) (fun _ _ => trivial) hsorted hdist hinj hcaps
+
+/-- **`probing_end_to_end`** — unconditional beyond `ArpaOK'`, section order, distinct n-grams, hash injectivity and
+capacity: the structure the builder produces answers every `FullScore` with the ARPA recursion `score a h w`
+(composition of `probing_build_represents`, `probing_refines` and `fullScore_prob`). -/
+theorem probing_end_to_end (combine : Nat → Word → Nat) (a : Arpa) (nWords : Nat) (buckets : List Nat) (um : Rat)
+    (ok : ArpaOK' a nWords um)
+    (hsorted : (ngramLines a).Pairwise (fun p q => p.1.length ≤ q.1.length))
+    (hdist : (a.entries.map (·.1)).Nodup)
+    (hinj : ∀ k k', IsKey a k → IsKey a k' → k.length = k'.length → hashOf combine k = hashOf combine k' → k = k')
+    (hcaps : ∀ m, (keysOf (foldKeys [] (ngramLines a)) m).length < capOf buckets m)
+    (inj : HashInjective combine (Table.build a))
+    (h : List Word) (st : State) (sf : StateFor a h st) (w : Word) (hw : a.gram [w] ≠ none) :
+    ∃ s, build combine false a nWords buckets um = .ok s ∧
+      (fullScore (KV.ProbingLM.search combine (toPLM false a.order s)) st w).1.prob = score a h w := by
+  obtain ⟨s, Mmid, Mlong, hb, rep⟩ := probing_build_represents combine a nWords buckets um ok hsorted hdist hinj hcaps
+  exact ⟨s, hb, KV.C03.probing_prob a ok.wf (fun _ => false) combine _ Mmid Mlong rep inj h st sf w hw⟩
+
+/-- the conclusion of `probing_build_represents` with the default `unknown_missing_logprob = -100` (kept as the
+hypothesis of the older `probing_end_to_end_partial`) -/
 def ProbingBuildRepresents (combine : Nat → Word → Nat) (a : Arpa) (nWords : Nat) (buckets : List Nat) : Prop :=
   ∃ s Mmid Mlong, build combine false a nWords buckets = .ok s ∧
     Represents combine (toPLM false a.order s) (Table.build a) Mmid Mlong
 
-/-- `probing_end_to_end`, **partial**: *given* `ProbingBuildRepresents` for the model at hand (proved only as far as
-`build_bigram` goes; checked at run time for every generated model, flag `prep`, and entry by entry against the real
-structure), every `FullScore` over the structure the builder produced equals the ARPA recursion — no hypothesis
+/-- `ProbingBuildRepresents` is a theorem now -/
+theorem probingBuildRepresents_holds (combine : Nat → Word → Nat) (a : Arpa) (nWords : Nat) (buckets : List Nat)
+    (ok : ArpaOK' a nWords (-100))
+    (hsorted : (ngramLines a).Pairwise (fun p q => p.1.length ≤ q.1.length))
+    (hdist : (a.entries.map (·.1)).Nodup)
+    (hinj : ∀ k k', IsKey a k → IsKey a k' → k.length = k'.length → hashOf combine k = hashOf combine k' → k = k')
+    (hcaps : ∀ m, (keysOf (foldKeys [] (ngramLines a)) m).length < capOf buckets m) :
+    ProbingBuildRepresents combine a nWords buckets :=
+  probing_build_represents combine a nWords buckets (-100) ok hsorted hdist hinj hcaps
+
+/-- `probing_end_to_end`, older conditional form (superseded by `probing_end_to_end`): *given*
+`ProbingBuildRepresents` for the model at hand, every `FullScore` over the structure the builder produced equals the ARPA recursion — no hypothesis
 about the structure other than that one is left (composition of `probing_refines` and `fullScore_prob`). -/
 theorem probing_end_to_end_partial (combine : Nat → Word → Nat) (a : Arpa) (wf : WellFormed a) (nWords : Nat) (buckets : List Nat)
     (hrep : ProbingBuildRepresents combine a nWords buckets) (inj : HashInjective combine (Table.build a))
@@ -288,8 +339,9 @@ and the line to their tables, and leaves in every table and in the unigram array
 probabilities filled bottom-up from the basis (`fillUs`: `prob += backoff(context)` per level, with `SetExtension` on the
 context), the sign bit cleared along the chain (`chainKeys`), and the extension mark on the line's context.  Proved by
 induction over the loops of `FindLower`, `AdjustLower` (both the unigram-basis and the middle-basis branch) and
-`MarkExtends`.  Not yet proved: that `chainWant` agrees with `wantW a (addLineKeys S p)` on the stored keys (a statement
-about keys only, no tables), which is what `StepOK … (fun _ => True)` needs; see design_notes/C03.md, round 8. -/
+`MarkExtends`.  Partial by itself (it says nothing about the meaning of `chainWant`); completed in round 9 by
+`CH.chain_sem` (`chainWant` = the payloads prescribed for the enlarged key set) into `step_chain` / `stepAll`, hence
+`probing_build_represents`. -/
 theorem probing_chain_line_partial (combine : Nat → Word → Nat) (a : Arpa) (u0 : List W) (N : Nat) (caps : Nat → Nat)
     (S : List Key) (s : St) (inv : InvG combine a u0 N caps S s) (si : SInv a S) (p : Key) (e : Entry)
     (lc : LC combine a u0 N caps S p e) (b L : Nat) (hb : 1 ≤ b) (hL : 1 ≤ L) (hpl : p.length = b + L + 1)
@@ -307,5 +359,41 @@ theorem probing_chain_line_partial (combine : Nat → Word → Nat) (a : Arpa) (
 theorem chain_updates_eval (us : List (Key × (W → W))) (want : Key → W) (k : Key) :
     applyUpd want us k = (us.filter (fun u => u.1 == k)).foldl (fun w u => u.2 w) (want k) :=
   applyUpd_eval us want k
+
+/-! ### `demoPruned` (two-level blank chain) as an instance of the general theorems -/
+
+/-- the hypotheses of `probing_build_represents` are satisfiable by a model with a two-level blank chain -/
+theorem demoPruned_ok : ArpaOK' demoPruned 5 (-100) := arpaOK'_of_check _ _ _ (by decide +kernel)
+
+theorem demoPruned_caps : ∀ m, (keysOf (foldKeys [] (ngramLines demoPruned)) m).length < capOf [4, 4, 4] m := by
+  intro m
+  match m with
+  | 0 => decide +kernel
+  | 1 => decide +kernel
+  | 2 => decide +kernel
+  | 3 => decide +kernel
+  | 4 => decide +kernel
+  | m+5 =>
+    have : keysOf (foldKeys [] (ngramLines demoPruned)) (m + 5) = [] := by
+      have hk : foldKeys [] (ngramLines demoPruned) = [[2,1], [3,2], [3,2,1], [4,3], [4,3,2], [4,3,2,1]] := by decide +kernel
+      rw [hk]; simp [keysOf]
+    rw [this]; simp [capOf]
+
+/-- **instance**: the builder on `demoPruned` (blanks `[4,3,2]` → `[4,3]` → unigram 4) represents `Table.build demoPruned`;
+`sqc` is an injective combiner (`hashOf_sqc_inj`), standing for the 64-bit hash on collision-free inputs -/
+theorem demoPruned_represents : ∃ s Mmid Mlong, build sqc false demoPruned 5 [4, 4, 4] (-100) = .ok s ∧
+    Represents sqc (toPLM false demoPruned.order s) (Table.build demoPruned) Mmid Mlong :=
+  probing_build_represents sqc demoPruned 5 [4, 4, 4] (-100) demoPruned_ok (by decide +kernel) (by decide +kernel)
+    (fun k k' _ _ hl h => hashOf_sqc_inj k k' hl h) demoPruned_caps
+
+/-- **instance** of `probing_end_to_end`: every `FullScore` from any state valid for its history, on the structure built
+from `demoPruned`, equals the ARPA recursion — including the queries answered through the two hallucinated blanks -/
+theorem demoPruned_end_to_end (h : List Word) (st : State) (sf : StateFor demoPruned h st) (w : Word)
+    (hw : demoPruned.gram [w] ≠ none) :
+    ∃ s, build sqc false demoPruned 5 [4, 4, 4] (-100) = .ok s ∧
+      (fullScore (KV.ProbingLM.search sqc (toPLM false demoPruned.order s)) st w).1.prob = score demoPruned h w :=
+  probing_end_to_end sqc demoPruned 5 [4, 4, 4] (-100) demoPruned_ok (by decide +kernel) (by decide +kernel)
+    (fun k k' _ _ hl h => hashOf_sqc_inj k k' hl h) demoPruned_caps
+    (fun g g' hl _ h => hashOf_sqc_inj g g' hl h) h st sf w hw
 
 end KV.C03ProbingBuild
